@@ -178,6 +178,10 @@ func (sess *hopSession) handleAgc(tube *tubes.Reliable) {
 	// Check server config (coarse grained enable/disable)
 	if !sess.server.config.EnableAuthgrants { // AuthGrants not enabled
 		authgrants.WriteIntentDenied(tube, authgrants.TargetDenial)
+	} else if sess.usingAuthGrant {
+		// A session that was itself admitted through authorization grants may
+		// only perform the granted actions; no grant type covers issuing grants.
+		authgrants.WriteIntentDenied(tube, "sessions admitted through an authorization grant cannot issue grants")
 	} else {
 		logrus.Info("target: starting target instance")
 		cert := sess.transportConn.FetchClientLeaf()
